@@ -5,7 +5,8 @@
    rgb_to_cmyk is a parameter [cmyk] of the model. *)
 From Coq Require Import List ZArith.
 From LJT Require Import gen.GenPnm model.Pnm model.Bmp proofs.PnmProofs proofs.PnmRoundtrip proofs.PnmTop proofs.PnmExamples
-  proofs.BmpProofs proofs.BmpRoundtrip proofs.BmpTop gen.GenImgPrec model.ImgEntry proofs.ImgEntryProofs.
+  proofs.BmpProofs proofs.BmpRoundtrip proofs.BmpTop gen.GenImgPrec model.ImgEntry proofs.ImgEntryProofs
+  gen.GenImgRd model.RdCommon model.Gif model.Tga proofs.GifProofs proofs.TgaProofs proofs.ImgRdTop.
 Import ListNotations.
 Local Open Scope Z_scope.
 
@@ -121,6 +122,84 @@ Theorem C18_cjpeg_buffer_matches_precision : forall f n, 2 <= n <= 16 -> cj_acce
 Proof. exact cj_buffer_type. Qed.
 Print Assumptions C18_cjpeg_buffer_matches_precision.
 
+(* (7) GIF, GetCode: for EVERY reader state satisfying the buffer invariant the three bytes fetched
+   lie inside code_buf[260], reloading terminates, the only error is a premature end of file, and
+   the bit budget mu strictly decreases unless the terminator block has been seen *)
+Theorem C18_gif_getcode_in_buffer : forall fuel st, io_ok st -> 1 <= z_cs st <= 12 -> (length (z_in st) < fuel)%nat ->
+  match get_code fuel st with
+  | ROk (c, st') =>
+    0 <= c /\ io_ok st' /\ frame st st' /\ z_first st' = false /\
+    (z_first st = true -> c = z_clear st) /\ (z_done st = true -> z_done st' = true) /\
+    ((z_done st' = true /\ c = z_end st) \/ mu st' < mu st)
+  | RErr e => e = R_EOF
+  end.
+Proof. exact get_code_spec. Qed.
+Print Assumptions C18_gif_getcode_in_buffer.
+
+(* (8) GIF, LZWReadByte, ALL code streams: under the invariant linv (tables of LZW_TABLE_SIZE cells,
+   every defined symbol's prefix is a raw byte or a smaller defined symbol, stack bytes below
+   clear_code, at most LZW_TABLE_SIZE of them) every symbol_head / symbol_tail / symbol_stack access
+   is in range and reads a written cell, the expansion loop terminates, the byte returned is below
+   clear_code (a valid, padded colormap index) and the invariant holds again *)
+Theorem C18_gif_lzw_indices_in_range : forall st, linv st ->
+  match lzw_read_byte st with
+  | ROk (b, st') => 0 <= b < z_clear st /\ linv st' /\ z_ics st' = z_ics st
+  | RErr e => e = R_EOF
+  end.
+Proof. exact lzw_read_byte_spec. Qed.
+Print Assumptions C18_gif_lzw_indices_in_range.
+
+(* (9) GIF, whole reader as cjpeg drives it, EVERY byte string: no out-of-range index (R_OOB), no read
+   of an unwritten table/colormap cell (R_UNINIT), termination (R_FUEL); a success delivers exactly
+   height rows of width*components samples in 0..255 and honours the pixel limit *)
+Theorem C18_gif_reader_safe : forall maxpixels s, bytes s ->
+  match load_gif maxpixels s with
+  | ROk (w, h, comps, warn, rows) =>
+    1 <= w <= 65535 /\ 1 <= h <= 65535 /\ (comps = 1 \/ comps = 3) /\ (maxpixels = 0 \/ w * h <= maxpixels) /\
+    length rows = Z.to_nat h /\
+    Forall (fun row => Forall GifProofs.byte row /\ length row = (Z.to_nat comps * Z.to_nat w)%nat) rows
+  | RErr e => rsafe e
+  end.
+Proof. exact load_gif_spec. Qed.
+Print Assumptions C18_gif_reader_safe.
+
+(* get_interlaced_row fetches an existing row of the preloaded image *)
+Theorem C18_gif_interlace_row_in_range : forall h r, 0 <= r < h -> 0 <= irow h r < h.
+Proof. exact irow_range. Qed.
+Print Assumptions C18_gif_interlace_row_in_range.
+
+(* (10) Targa, read_pixel (RLE or raw): the block / duplicate counts stay non-negative, tga_pixel holds
+   pixel_size bytes after every call and is never used before it was written *)
+Theorem C18_tga_rle_state : forall hd st, 1 <= t_psize hd <= 4 -> tinv (t_psize hd) st ->
+  match read_pixel hd st with
+  | ROk st' => tinv (t_psize hd) st' /\ ts_px st' <> None
+  | RErr e => e = R_EOF
+  end.
+Proof. exact read_pixel_spec. Qed.
+Print Assumptions C18_tga_rle_state.
+
+(* (11) Targa, whole reader, EVERY byte string: colormap and c5to8bits indexed in range, termination;
+   a success delivers exactly height rows of width*components samples in 0..255, pixel limit honoured *)
+Theorem C18_tga_reader_safe : forall maxpixels s, bytes s ->
+  match load_tga maxpixels s with
+  | ROk (w, h, comps, rows) =>
+    1 <= w <= 65535 /\ 1 <= h <= 65535 /\ (comps = 1 \/ comps = 3) /\ (maxpixels = 0 \/ w * h <= maxpixels) /\
+    length rows = Z.to_nat h /\
+    Forall (fun row => Forall GifProofs.byte row /\ Z.of_nat (length row) = w * comps) rows
+  | RErr e => rsafe e
+  end.
+Proof. exact load_tga_spec. Qed.
+Print Assumptions C18_tga_reader_safe.
+
+(* the constants and comparison directions those proofs use are the ones of the current source *)
+Theorem C18_source_gif_tga_constants :
+  lzw_table_size = 2 ^ max_lzw_bits /\ max_lzw_bits = 12 /\ code_buf_size = 256 + 4 /\
+  gif_min_codesize = 2 /\ gif_max_codesize = 8 /\ 2 ^ gif_max_codesize <= gif_maxcolormap /\
+  lzw_full_test_strict = true /\ lzw_grow_guard_strict = true /\ lzw_bad_incode_zero = true /\
+  tga_max_maplen = 256 /\ tga_index_check = true /\ length c5to8 = 32%nat.
+Proof. exact source_constants. Qed.
+Print Assumptions C18_source_gif_tga_constants.
+
 (* ---- non-vacuity ---- *)
 Example C18_ex_text_ok : bytes f_text /\ load_pnm cmyk_exact look_tbl 2 0 None false f_text = Ok (2, 1, TGray, [[1; 2]]).
 Proof. exact ex_text_ok. Qed.
@@ -163,3 +242,14 @@ Example C18_ex_entry_points :
   tj_load_dp 8 8 (tj_fmt 71) = None /\
   cj_accepts FPnm 13 = true /\ cj_accepts FBmp 12 = false /\ cj_accepts FGif 8 = true /\ cj_accepts (cj_fmt true 1) 9 = false.
 Proof. exact ex_entry. Qed.
+Example C18_ex_gif_tga :
+  bytes f_gif /\
+  load_gif 0 f_gif = ROk (3, 2, 3, 0, [[0; 0; 0; 255; 0; 0; 255; 0; 0]; [0; 255; 0; 0; 0; 255; 0; 0; 255]]) /\
+  load_gif 0 f_gif_bad = ROk (3, 2, 3, 3, [[0; 0; 0; 0; 0; 0; 0; 0; 0]; [0; 0; 0; 0; 0; 0; 0; 0; 0]]) /\
+  load_gif 0 f_gif_trunc = RErr R_EOF /\ load_gif 5 f_gif = RErr R_TOOBIG /\
+  load_tga 0 f_tga = ROk (3, 2, 3, [[3; 2; 1; 3; 2; 1; 6; 5; 4]; [9; 8; 7; 12; 11; 10; 15; 14; 13]]) /\
+  load_tga 0 f_tga_cm = ROk (2, 1, 3, [[6; 5; 4; 3; 2; 1]]) /\
+  load_tga 0 f_tga_cm_bad = RErr R_TGA_BADPARMS /\ load_tga 0 f_tga_trunc = RErr R_EOF.
+Proof. exact ex_gif_tga. Qed.
+Example C18_ex_linv_satisfiable : linv (lzw_init 2 0 [2; 140; 45; 153; 135; 42; 28; 220; 51; 160; 2; 117; 236; 149; 250; 168; 222; 96; 140; 4; 145; 76; 1; 0; 59]).
+Proof. exact ex_linv. Qed.
